@@ -821,10 +821,6 @@ def law_check(case, obs, hyp, promised):
         if obs["info"] != ["Error", "EValue"]:
             bad.append(("law-info-error", f"an end time without start time must raise ValueError, got {obs['info']}"))
         return bad
-    if obs["info"][0] != "Ok":
-        bad.append(("law-info-error", f"get_info({obs['name']!r}) raised {obs['info'][1]}"))
-        return bad
-    gs, ge, ga = obs["info"][1]
     users = {t[1] for t in tokens if t[0] == "u"}
     want_attr = {u: case["fill"][u] for u in users}
     ends = [t[2] for t in tokens if t[0] == "t" and t[1]]
@@ -857,7 +853,16 @@ def law_check(case, obs, hyp, promised):
             want_s = st
             want_e = en if en is not None else (st + cfg["coverage"] if cfg["coverage"] is not None else st)
     if want_e is not None and want_e > us_of(dt.datetime.max):
+        # start + time_coverage / the rolled end lies beyond datetime.max: OverflowError is the stated outcome
+        # (no_end_fields, roundtrip_end_partial: Error EOverflow)
+        if obs["info"] != ["Error", "EOverflow"]:
+            bad.append(("law-info-error", f"get_info({obs['name']!r}) = {obs['info']} although the end lies beyond "
+                                          f"datetime.max (OverflowError expected)"))
         return bad
+    if obs["info"][0] != "Ok":
+        bad.append(("law-info-error", f"get_info({obs['name']!r}) raised {obs['info'][1]}"))
+        return bad
+    gs, ge, ga = obs["info"][1]
     if gs != want_s:
         bad.append(("law-start", f"get_info(get_filename(({of_us(s)}, {of_us(e)}))) reports start {of_us(gs)} "
                                  f"instead of {of_us(want_s)} (name {obs['name']!r})"))
